@@ -132,7 +132,7 @@ func (maybeSelf someDef[T]) ToString() string {
 
 // ToPtr Maybe to Ptr
 func (maybeSelf someDef[T]) ToPtr() *T {
-	if maybeSelf.IsPtr() {
+	if maybeSelf.IsPresent() && maybeSelf.IsPtr() {
 		val := reflect.Indirect(reflect.ValueOf(maybeSelf.ref)).Interface()
 		switch val.(type) {
 		case *T:
